@@ -406,23 +406,46 @@ def pullClamped (clamp : Option Nat) (H : Hasher) (sortBucket : Bool) (vs : Valu
     (true, div, resp, applyDeltas r resp)
   else (false, [], [], r)
 
-/-- what `let num_buckets = 1 << depth; vec![Vec::new(); num_buckets]` in
-    `StateDigest::from_state` does for a configured `merkle_tree_depth` (an unvalidated `usize`) on
-    a 64-bit target: a shift amount ≥ 64 panics when the crate is built with overflow checks (as
-    the verification harness builds it) and wraps modulo 64 otherwise (a default release build);
-    a vector of more than `isize::MAX` bytes (24 bytes per bucket) panics with "capacity
-    overflow"; below that the allocation is attempted (and aborts the process when the memory is
-    not there — not modelled) -/
+/-- how a configured `merkle_tree_depth` becomes the depth in effect -/
+inductive DepthBound where
+  | unbounded            -- `1 << depth` at every use (before fix c51a674)
+  | capped (max : Nat)   -- `bucket_count(depth) = 1 << depth.min(MAX_MERKLE_TREE_DEPTH)`, the one
+                         -- function through which digest construction and `KeyDigest::bucket` go
+  deriving DecidableEq, Repr
+
+/-- the depth every model function of this file is to be called with: digest, divergent-bucket
+    list and both key filters receive the SAME effective depth -/
+def effectiveDepth (b : DepthBound) (depth : Nat) : Nat :=
+  match b with
+  | .unbounded => depth
+  | .capped m => min depth m
+
+/-- `MAX_MERKLE_TREE_DEPTH` -/
+def currentDepthBound : DepthBound := .capped 20
+
+/-- `AntiEntropyConfig::keys_per_sync() = max_keys_per_sync.max(1)` (since fix 7f2c849; before it
+    the configured limit was used as it is) -/
+def effectiveLimit (atLeastOne : Bool) (limit : Nat) : Nat := if atLeastOne then max limit 1 else limit
+
+def currentLimitAtLeastOne : Bool := true
+
+/-- what allocating the bucket vector of `StateDigest::from_state` does for a configured
+    `merkle_tree_depth` (a plain `usize`) on a 64-bit target.  Unbounded: `vec![..; 1 << depth]` —
+    a shift amount ≥ 64 panics when the crate is built with overflow checks (as the verification
+    harness builds it) and wraps modulo 64 otherwise; a vector of more than `isize::MAX` bytes
+    (24 bytes per bucket) panics with "capacity overflow"; below that the allocation is attempted
+    (and aborts the process when the memory is not there — not modelled). -/
 inductive DigestAlloc where
   | buckets (n : Nat)
   | capacityOverflowPanic
   | shiftOverflowPanic
   deriving DecidableEq, Repr
 
-def digestAlloc (overflowChecks : Bool) (depth : Nat) : DigestAlloc :=
-  if overflowChecks && depth ≥ 64 then .shiftOverflowPanic
+def digestAlloc (b : DepthBound) (overflowChecks : Bool) (depth : Nat) : DigestAlloc :=
+  let d := effectiveDepth b depth
+  if overflowChecks && d ≥ 64 then .shiftOverflowPanic
   else
-    let n := 2 ^ (depth % 64)
+    let n := 2 ^ (d % 64)
     if 24 * n > 2 ^ 63 - 1 then .capacityOverflowPanic else .buckets n
 
 /-- the digest / the sync round of the current tree -/
